@@ -103,6 +103,8 @@ async def _run_op(op):
             await f_devices.put_slave_devices(FakeHandler(method='PUT'), copy.deepcopy(op[1]))
         elif kind == 'sfwd':
             await f_devices.slave_device_forward(FakeHandler(method='PATCH'), op[1], '/device', copy.deepcopy(op[2]))
+        elif kind == 'seq':
+            await f_ports.patch_port_sequence(FakeHandler(method='PATCH'), op[1], copy.deepcopy(op[2]))
         elif kind == 'sfwdw':
             await f_devices.slave_device_forward(FakeHandler(method='PATCH'), op[1], '/webhooks', copy.deepcopy(op[2]))
         elif kind == 'failnext':
